@@ -219,7 +219,7 @@ Inductive wout :=
 | WOpen (f : str)             (* open_file(f, mode 'wb+') *)
 | WAppend (f : str)           (* open_file(f, mode 'ab+') *)
 | WNoFile                     (* nothing is opened *)
-| WCannotContinue             (* IOError 'Server not able to continue' *)
+| WCannotContinue             (* ProtocolError "Server not able to continue" (a per-URL error) *)
 | WFuel.                      (* model only: the unbounded .N loop ran out of fuel *)
 
 (* pattern elements are (lower, upper) letter pairs, reversed; r is the reversed text *)
